@@ -32,7 +32,10 @@ type env struct {
 }
 
 // startServer starts a real server (security None, anonymous) with n writable Int32 variables ns=<ns>;i=1000+k.
-func startServer(ctx context.Context, n int) *env {
+func startServer(ctx context.Context, n int) *env { return startServerWith(ctx, n, nil) }
+
+// startServerWith: as startServer; before runs before Start (RegisterHandler wins when called before Start).
+func startServerWith(ctx context.Context, n int, before func(*server.Server)) *env {
 	s := server.New(
 		server.EnableSecurity("None", ua.MessageSecurityModeNone),
 		server.EnableAuthMode(ua.UserTokenTypeAnonymous),
@@ -55,6 +58,9 @@ func startServer(ctx context.Context, n int) *env {
 		e.ns.AddNode(nd)
 		e.ns.Objects().AddRef(nd, id.HasComponent, true)
 		e.nodes = append(e.nodes, nd)
+	}
+	if before != nil {
+		before(s)
 	}
 	if err := s.Start(ctx); err != nil {
 		panic(err)
